@@ -303,12 +303,188 @@ def opLinReg (a : List Int) (o : Option Obs) : String :=
           return v.line
   | _ => "bad-op"
 
+
+def ratToFloat (q : Rat) : Float := Float.ofInt q.num / Float.ofNat q.den
+
+/-- `whiten` / `zca`: `tNum tShift | table` -/
+def opWhiten (zca : Bool) (a : List Int) (o : Option Obs) : String :=
+  match a with
+  | tNum :: tShift :: rest =>
+    match parseTable rest 0 with
+    | none => "bad-op"
+    | some t =>
+      let bs := t.inputs
+      let d := t.d
+      let target : Rat := tNum * pow2 (-tShift)
+      let covt := tab2 d d (covariance bs)
+      let cov := covt.at2
+      let rk := rank d cov
+      match o with
+      | none => s!"model rank {rk}"
+      | some o =>
+        if t.n < d + 1 ∨ target ≤ 0 then (if o.status = "exc" then "ok exact=0 tol=0 rel=0 tags=exception" else "FAIL expected exception, got " ++ o.status) else
+        if o.status ≠ "ok" then "FAIL status " ++ o.status else
+        let gr := o.group "rank"; let gW := o.group "W"; let gb := o.group "b"
+        let r := if gr.size = 1 then (gr[0]!.get.num.toNat) else 0
+        if gW.size ≠ r * d ∨ gb.size ≠ r then "FAIL shape" else Id.run do
+          let mut v : Verdict := {}
+          if t.sizes.length > 1 then v := v.tag "multi-batch"
+          v := v.tag (if rk = d then "full-rank" else "singular-cov")
+          if gW.any (fun x => ¬ x.isFin) ∨ gb.any (fun x => ¬ x.isFin) then
+            return (if zca then "FAIL zca-nonfinite: non-finite model for a covariance of rank " ++ toString rk ++ " < " ++ toString d
+                    else "FAIL whitening-nonfinite")
+          if ¬ zca then
+            if r = rk then v := { v with exact := v.exact + 1 } else v := v.fail s!"whitening rank: model {rk} impl {r}"
+          else if r ≠ d then v := v.fail "zca output dimension"
+          let W := (tab2 r d fun i j => gW[i * d + j]!.get).at2
+          -- W·Cov (r x d), tabulated
+          let WC := (tab2 r d fun i j => rsum d fun k => W i k * cov k j).at2
+          let wmax := gW.foldl (fun m x => max m (rabs x.get)) 0
+          if ¬ zca ∨ rk = d then
+            -- specification of the decomposition: W·Cov·Wᵀ = t·I  (⇒ whitening_output)
+            for i in [0:r] do
+              for k in [0:r] do
+                let lhs := rsum d fun j => WC i j * W k j
+                v := v.spec s!"W*Cov*W^T[{i},{k}]" lhs (if i = k then target else 0) (target * 100)
+          else v := v.tag "zca-singular(projector,oracle-only)"
+          for i in [0:r] do
+            let mb := -(rsum d fun j => W i j * mean bs j)
+            v := v.spec s!"offset[{i}] = -W*mean" (gb[i]!.get) mb (wmax * (rsum d fun j => rabs (mean bs j)))
+          return v.line
+  | _ => "bad-op"
+
+/-- `pca whitening alg m | table` -/
+def opPca (a : List Int) (o : Option Obs) : String :=
+  match a with
+  | wh :: alg :: m :: rest =>
+    match parseTable rest 0 with
+    | none => "bad-op"
+    | some t =>
+      let bs := t.inputs
+      let n := t.d
+      let l := t.n
+      let m := m.toNat
+      let mEff := if m = 0 then min n l else m
+      let small := alg = 2 ∨ (alg = 0 ∧ n > l)
+      let covt := tab2 n n (covariance bs)
+      let cov := covt.at2
+      match o with
+      | none => s!"model rank {rank n cov}"
+      | some o =>
+        if l < 2 then (if o.status = "exc" then "ok exact=0 tol=0 rel=0 tags=exception" else "FAIL expected exception, got " ++ o.status) else
+        if o.status ≠ "ok" then "FAIL status " ++ o.status else
+        let gc := o.group "cols"
+        let cols := if gc.size = 1 then gc[0]!.get.num.toNat else 0
+        let gm := o.group "mean"; let ge := o.group "eigenvalues"; let gV := o.group "eigenvectors"
+        let gEW := o.group "encW"; let gEb := o.group "encb"; let gDW := o.group "decW"; let gDb := o.group "decb"
+        if gm.size ≠ n ∨ ge.size ≠ cols ∨ gV.size ≠ n * cols ∨ gEW.size ≠ mEff * n ∨ gEb.size ≠ mEff
+            ∨ gDW.size ≠ n * mEff ∨ gDb.size ≠ n ∨ mEff > cols then "FAIL shape" else Id.run do
+          let mut v : Verdict := {}
+          if t.sizes.length > 1 then v := v.tag "multi-batch"
+          v := v.tag (if small then "small-sample-branch" else "standard-branch")
+          if wh = 1 then v := v.tag "whitening"
+          for j in [0:n] do
+            v := v.value o.inexact s!"mean[{j}]" (mean bs j) gm[j]!
+            v := v.value o.inexact s!"decb[{j}]" (mean bs j) gDb[j]!
+          let V := (tab2 n cols fun j i => gV[j * cols + i]!.get).at2
+          let ev := fun i => ge[i]!.get
+          let top := rabs (ev 0)
+          let bad := (List.range mEff).any fun i => (¬ ge[i]!.isFin) ∨ (List.range n).any fun j => ¬ gV[j * cols + i]!.isFin
+          if bad then return "FAIL pca-nonfinite-direction among the first " ++ toString mEff ++ " components"
+          let zeroDir := fun i => (List.range n).all fun j => V j i = 0
+          for i in [0:mEff] do
+            if i + 1 < mEff ∧ ev i < ev (i + 1) - tolRel * (1 + top) then v := v.fail s!"eigenvalues not sorted at {i}"
+            if zeroDir i then
+              v := v.tag "zero-direction"
+              if rabs (ev i) > tolRel * (1 + top) then v := v.fail s!"zero direction {i} with eigenvalue {showRat (ev i)}"
+            else
+              -- eigen-solver specification, checked against the model's covariance (both branches): Cov·v = λ·v
+              for j in [0:n] do
+                let lhs := rsum n fun k => cov j k * V k i
+                v := v.spec s!"Cov*v[{i}][{j}]" lhs (ev i * V j i) (rsum n fun k => rabs (cov j k))
+              for k in [0:mEff] do
+                if ¬ zeroDir k then
+                  v := v.spec s!"orthonormal[{i},{k}]" (rsum n fun j => V j i * V j k) (if i = k then 1 else 0) 1
+          -- encoder / decoder built from the directions
+          for i in [0:mEff] do
+            let enc := fun j => gEW[i * n + j]!
+            let dec := fun j => gDW[j * mEff + i]!
+            if wh = 0 then
+              for j in [0:n] do
+                v := v.value false s!"encW[{i},{j}]" (V j i) (enc j)
+                v := v.value false s!"decW[{j},{i}]" (V j i) (dec j)
+              v := v.spec s!"encb[{i}]" gEb[i]!.get (-(rsum n fun j => V j i * mean bs j)) (rsum n fun j => rabs (mean bs j))
+            else
+              for j in [0:n] do
+                if ¬ (enc j).isFin ∨ ¬ (dec j).isFin then v := v.fail s!"non-finite whitened encoder/decoder entry ({i},{j})" else
+                if (enc j).get = 0 ∧ (dec j).get = 0 then v := v.tag "whitening-cleared-or-zero" else
+                  -- enc = V/sqrt(λ), dec = V·sqrt(λ)  ⇒  enc·dec = V², dec² = λ·V²
+                  v := v.spec s!"enc*dec[{i},{j}]" ((enc j).get * (dec j).get) (V j i * V j i) 1
+                  v := v.spec s!"dec^2[{i},{j}]" ((dec j).get * (dec j).get) (ev i * (V j i * V j i)) (1 + top)
+          return v.line
+  | _ => "bad-op"
+
+/-- `lda regNum regShift | table+class` and `wlda regNum regShift | table+class+weight` -/
+def opLda (weighted : Bool) (a : List Int) (o : Option Obs) : String :=
+  match a with
+  | regNum :: regShift :: rest =>
+    match parseTable rest (if weighted then 2 else 1) with
+    | none => "bad-op"
+    | some t =>
+      let d := t.d
+      let reg : Rat := regNum * pow2 (-regShift)
+      let rowsW : List (Vec × Nat × Rat) := t.rows.map fun r =>
+        ((r.take d).map fun (v : Int) => (v : Rat), (r.getD d 0).toNat, if weighted then ((r.getD (d + 1) 1 : Int) : Rat) else 1)
+      let wbs : WCData := cut t.sizes rowsW
+      let cbs : CData := cut t.sizes (rowsW.map fun p => (p.1, p.2.1))
+      let classes := (rowsW.foldl (fun m p => max m p.2.1) 0) + 1
+      let emptyClass := (List.range classes).any fun c => rowsW.all fun p => p.2.1 ≠ c
+      let expectExc := emptyClass ∨ (¬ weighted ∧ t.n ≤ classes)
+      let mu := (tab2 classes d fun c j => if weighted then wldaMean wbs c j else ldaMean cbs c j).at2
+      let cov := (tab2 d d fun i j => if weighted then wldaCov wbs classes reg i j else ldaCov cbs classes reg i j).at2
+      let prior := fun c => if weighted then wldaPrior wbs c else ldaPrior cbs c
+      match o with
+      | none => s!"model classes {classes} rank {rank d cov}"
+      | some o =>
+        if expectExc then
+          (if o.status = "exc" then "ok exact=0 tol=0 rel=0 tags=exception"
+           else if ¬ emptyClass then "FAIL lda-n-equals-classes: one example per class, the pooled covariance is 0/0; expected an exception, got " ++ o.status
+           else "FAIL expected exception, got " ++ o.status) else
+        if o.status ≠ "ok" then "FAIL status " ++ o.status else
+        let gZ := o.group "Z"; let gb := o.group "bias"
+        if gZ.size ≠ classes * d ∨ gb.size ≠ classes then "FAIL shape" else Id.run do
+          let mut v : Verdict := {}
+          if t.sizes.length > 1 then v := v.tag "multi-batch"
+          let rk := rank d cov
+          v := v.tag (if rk = d then "regular-cov" else "singular-cov")
+          if gZ.any (fun x => ¬ x.isFin) ∨ gb.any (fun x => ¬ x.isFin) then return "FAIL lda-nonfinite model"
+          if rk = d then
+            let Z := (tab2 classes d fun c j => gZ[c * d + j]!.get).at2
+            for c in [0:classes] do
+              -- specification of solve(cov, means, right):  z_c · Cov = m_c
+              for j in [0:d] do
+                let lhs := rsum d fun k => Z c k * cov k j
+                v := v.spec s!"z*Cov[{c},{j}]" lhs (mu c j) ((rsum d fun k => rabs (Z c k * cov k j)) + rabs (mu c j))
+              -- bias = -1/2 m_c·z_c + log prior  (log from libm, compared in Float)
+              let mz := rsum d fun j => mu c j * Z c j
+              let lhs := ratToFloat (gb[c]!.get + mz / 2)
+              let lp := Float.log (ratToFloat (prior c))
+              if (lhs - lp).abs ≤ 1e-8 * (1 + lp.abs + (ratToFloat (rabs mz))) then v := { v with rel := v.rel + 1 }
+              else v := v.fail s!"bias[{c}]: bias + m.z/2 = {lhs}, log prior = {lp}"
+          return v.line
+  | _ => "bad-op"
+
 def dispatch (op : String) (a : List Int) (o : Option Obs) : String :=
   match op with
   | "meanvar" => opMeanVar a o
   | "unitvar" => opUnitVar a o
   | "unitint" => opUnitInt a o
   | "linreg" => opLinReg a o
+  | "whiten" => opWhiten false a o
+  | "zca" => opWhiten true a o
+  | "pca" => opPca a o
+  | "lda" => opLda false a o
+  | "wlda" => opLda true a o
   | _ => "bad-op"
 
 def step (line : String) : String :=
